@@ -38,9 +38,12 @@ Definition art_eqb (a b : artifact) : bool :=
   | _, _ => false
   end.
 
-(* the harness deletes the state point file at the root of every exported job directory *)
+(* the harness deletes the state point file at the root of every exported job directory; for a zip
+   archive it instead appends an empty-directory member that lies outside every job path *)
+Definition EXTRA : str := S "zz_outside/empty".
 Definition strip_art (ds : list str) (a : artifact) : artifact :=
   match a with
+  | AZip ms => AZip (ms ++ [(EXTRA ++ slash, [])])
   | ADir f =>
       let roots := List.map (fun d => TARGET ++ (let n := normpath d in if str_eqb n dot then [] else split 47 n) ++ [FN_SP]) ds in
       ADir (filter (fun e => negb (existsb (fpath_eqb (fst e)) roots && negb (is_none (snd e)))) f)
@@ -112,12 +115,23 @@ Definition pre_untouched (pre : list job) (d : fs) : bool :=
 (* does the import schema describe the exported layout?  (decided with the model's parser; the
    syntactic sufficient condition is theorem C16_schema_string_roundtrip) *)
 Definition sp_same (a b : json) : bool := json_eqb (norm a) (norm b).
+(* a foreign empty directory was appended to the zip archive *)
+Definition zip_extra (c : case_C16) : bool :=
+  c_strip c && negb (is_none (match c_kind c with KZip => Some tt | _ => None end)).
+(* ... and it really lies outside every job path (a job exported to the archive root contains everything) *)
+Definition extra_outside (c : case_C16) : bool :=
+  negb (zip_extra c) || forallb (fun d => negb (is_none (hd_error (loc_of d)))) (x_map c).
+
 Definition schema_faithful (c : case_C16) : bool :=
+  extra_outside c &&
   match c_schema c with
-  | SchNone => negb (c_strip c)
+  | SchNone => negb (c_strip c) || negb (is_none (match c_kind c with KZip => Some tt | _ => None end))
   | SchStr text =>
       match schema_compile text with
       | ROk fields =>
+          (* the foreign empty directory, if one was added, is not taken for a job by this schema *)
+          (negb (c_strip c && negb (is_none (match c_kind c with KZip => Some tt | _ => None end)))
+           || match parse_path fields EXTRA with ROk None => true | _ => false end) &&
           Nat.eqb (List.length (x_map c)) (List.length (c_jobs c)) &&
           forallb (fun jd => match parse_path fields (normpath (snd jd)) with
                              | ROk (Some sp) => sp_same sp (j_sp (fst jd))
@@ -216,32 +230,15 @@ Definition cls_lex (c : case_C16) : bool :=
   end.
 Definition cls_F20 (c : case_C16) : bool := cls_root c || cls_lex c.
 
-(* F21: zip target and a job directory contains an empty directory (zip archives get files only) *)
-Definition has_empty_dir (t : fs) : bool :=
-  existsb (fun e => is_none (snd e) && negb (existsb (fun e' => negb (fpath_eqb (fst e) (fst e')) && is_prefix (fst e) (fst e')) t)) t.
-Definition cls_F21 (c : case_C16) : bool :=
-  match c_kind c with KZip => existsb (fun j => has_empty_dir (j_files j)) (c_jobs c) | _ => false end.
-
-(* ... and the model's own round trip differs from the expected workspace only by empty directories *)
-Definition drop_empty_dirs (t : fs) : fs :=
-  filter (fun e => negb (is_none (snd e))
-                   || existsb (fun e' => negb (is_none (snd e')) && is_prefix (fst e) (fst e')) t) t.
-Definition model_round_dst (c : case_C16) : fs :=
-  io_dst (import_model (c_oracle c) (c_schema c)
-            (let e := run_export c in if c_strip c then strip_art (eo_map e) (eo_art e) else eo_art e) (dst_init (c_pre c))).
-Definition expl_F21 (c : case_C16) : bool :=
-  cls_F21 c && fs_eqb (drop_empty_dirs (model_round_dst c))
-                      (drop_empty_dirs (expected_dst (c_pre c) (c_jobs c))).
-
 Definition known_tag (c : case_C16) : N :=
   if holds_C16 c then 0 else
   let expl_unique := h_unique c || cls_root c in
   let expl_leaf := h_leafnode c || cls_root c in
   let expl_clean := h_raise_clean c || cls_F20 c in
-  let expl_round := h_roundtrip c || cls_F20 c || expl_F21 c in
+  let expl_round := h_roundtrip c || cls_F20 c in
   if h_src c && h_export_contained c && h_import_contained c && h_no_overwrite c
      && expl_unique && expl_leaf && expl_clean && expl_round then
-    (if cls_F20 c then 6 else if cls_F21 c then 7 else 0)      (* tags 1-5 (F7, F15, F6, F18, F19): repaired *)
+    (if cls_F20 c then 6 else 0)      (* tags 1-5 and 7 (F7, F15, F6, F18, F19, F21): repaired *)
   else 0.
 
 Fixpoint known_aux (cs : list case_C16) (i : N) : list N :=
